@@ -64,10 +64,13 @@ def run(ctx):
                          "x": [str(Fraction(ctx.rng.randint(-256, 256), 8)) for _ in range(n)],
                          "logdet": str(Fraction(ctx.rng.randint(-4000, 4000), 4))})
         grid_n = (1, 2, 7, 40, 100, 200) if ctx.quick() else (1, 2, 3, 7, 20, 40, 80, 100, 150, 200)
-        grid_s = (-3000, -800, -100, 0, 100, 800, 3000)
+        # the edges of the double range for det and for sqrt(det) (a Cholesky diagonal product): smallest subnormal
+        # 2^-1074 (log -744.4), smallest normal 2^-1022 (log -708.4), largest 2^1024 (log 709.8) - and twice those
+        edges = (-1490, -1480, -1440, -1417, -744, -742.5, -735, -720, -709, -708, 708, 709.7, 710, 1417, 1419.5, 1421)
+        grid_s = (-3000, -800, -100, 0, 100, 800, 3000) + (edges if ctx.quick() else edges + tuple(e + d for e in edges for d in (-0.5, 0.5)))
         sweeps = [c for c in ctx.corpus if c.get("sweep")] + \
                  [{"sweep": True, "n": n, "target_logdet": t, "seed": ctx.rng.randrange(2 ** 31)} for n in grid_n for t in grid_s
-                  if abs(t) / n <= 600] + \
+                  if abs(t) / n <= 600 and (t in (-3000, -800, -100, 0, 100, 800, 3000) or n in (7, 40, 200))] + \
                  [{"sweep": True, "n": n, "target_logdet": t, "seed": ctx.rng.randrange(2 ** 31), "offset": off}
                   for n in (2, 7, 40) for t in (0, 100, 800) for off in (1e3, 1e5) if abs(t) / n <= 600]
         cfgs = [c for c in ctx.corpus if not (c.get("kernel") or c.get("sweep"))] + \
@@ -76,6 +79,8 @@ def run(ctx):
             cfg = tu.gen_config(ctx.rng)
             cfg.update({"limit": 1, "K": max(3, cfg["K"]), "force_final": ["singleton", "pair", "empty"][i % 3]})
             cfgs.append(cfg)
+        # "NW in the hundreds and determinants far outside the range of a double" through the PUBLIC front end
+        cfgs += tu.high_dimensional_configs(ctx.rng, (1e6, 10 ** 4.5) if ctx.quick() else (1e6, 10 ** 4.5, 1e3, 1e-2, 1e5))
         for i in range(4 if ctx.quick() else 40):
             # caller-side dtypes other than float64 (integer counts, single precision): the fitted means are not
             # representable in the data's dtype
